@@ -20,6 +20,7 @@ import (
 var nilTree = T{"nil", ""}
 
 type outcome struct {
+	Tag  string // appended to every signature: the catalogue records WHICH item deviates HOW
 	Line rt.M
 	Devs []string // deviation keys (scan / distinct counting)
 	Note []string // human readable first differences
@@ -83,6 +84,7 @@ func normErr(msg string) string {
 }
 
 func (o *outcome) sig(list *[]any, s, note string) {
+	s += "@" + o.Tag
 	*list = append(*list, s)
 	if len(note) > 500 {
 		note = note[:500] + "..."
@@ -244,7 +246,7 @@ func renderAndCompare(p0 *Pipe, from *Pipe, edge string, o *outcome) rt.M {
 
 // evalScript: all stages for one statement-level item.
 func evalScript(it item) *outcome {
-	o := &outcome{}
+	o := &outcome{Tag: it.Tag}
 	ln := rt.M{"cls": "script", "kind": it.Cls, "edge": it.Edge, "src": it.Src, "tag": it.Tag}
 	o.Line = ln
 	n0, e := parse(it.Src)
@@ -351,7 +353,7 @@ func evalScript(it item) *outcome {
 	if it.Cls == "random" {
 		ln["b"], ln["cb"] = skip, skip
 		ln["c"] = rt.M{"merr": "", "uerr": "", "iso": "", "rejson": false, "sigs": []any{}, "skipped": true}
-		oo := &outcome{}
+		oo := &outcome{Tag: it.Tag}
 		renderAndCompare(p0, p0, it.Edge, oo)
 		for _, sg := range oo.Sigs {
 			o.Devs = append(o.Devs, "obs:random:"+sg.Sig)
